@@ -6,7 +6,7 @@ Usage: keep_seed.py <prop> <variant> "<what it needs to manifest>" [first_flagge
 import json, os, shutil, subprocess, sys
 prop, var, needs = sys.argv[1], sys.argv[2], sys.argv[3]
 first = sys.argv[4] if len(sys.argv) > 4 else None
-src = "/tmp/seed/%s/%s" % (prop, var)
+src = os.environ.get("SEED_ROOT", "/tmp/seed") + "/%s/%s" % (prop, var)
 out = subprocess.run([sys.executable, "/verif/tools/eval_seed.py", src], capture_output=True, text=True).stdout
 r = json.loads(out)
 ok = r.get("applies") and r.get("builds") and r.get("suite_with") == "pass" and r.get("demo_without") == "pass" and r.get("demo_with") == "fail"
